@@ -30,6 +30,12 @@ def resolve(root, path, want_sec=False):
         elif not o.d.is_multi:
             return None, None, None
         elif o.d.flags & F_TITLE:
+            if qual.startswith("'"):
+                # name='quoted title' with \' and \\ escapes (only well-formed spellings are used by the callers)
+                body = qual[1:-1] if len(qual) >= 2 and qual.endswith("'") else None
+                if body is None:
+                    return None, None, None
+                qual = body.replace("\\'", "'").replace('\\\\', '\\')
             idx = next((i for i, s in enumerate(o.vals) if s.title == qual), -1)
         else:
             try:
